@@ -1,8 +1,8 @@
 use poulpy_hal::{
     api::{
         ScratchAvailable, ScratchTakeBasic, VecZnxAutomorphismAssign, VecZnxAutomorphismAssignTmpBytes, VecZnxBigAddSmallAssign,
-        VecZnxBigAutomorphismAssign, VecZnxBigAutomorphismAssignTmpBytes, VecZnxBigNormalize, VecZnxBigSubSmallAssign,
-        VecZnxBigSubSmallNegateAssign, VecZnxNormalize,
+        VecZnxBigAutomorphismAssign, VecZnxBigAutomorphismAssignTmpBytes, VecZnxBigNormalize, VecZnxBigNormalizeTmpBytes,
+        VecZnxBigSubSmallAssign, VecZnxBigSubSmallNegateAssign, VecZnxNormalize,
     },
     layouts::{Backend, Module, Scratch, VecZnxBig, ZnxZero},
 };
@@ -26,6 +26,7 @@ pub(crate) trait GLWEAutomorphismDefault<BE: Backend>:
     + VecZnxBigSubSmallNegateAssign<BE>
     + VecZnxBigAddSmallAssign<BE>
     + VecZnxBigNormalize<BE>
+    + VecZnxBigNormalizeTmpBytes
     + GLWENormalize<BE>
 where
     Scratch<BE>: ScratchTakeCore<BE>,
@@ -41,11 +42,14 @@ where
         assert_eq!(self.n() as u32, key_infos.n());
 
         let lvl_0: usize = self.glwe_keyswitch_tmp_bytes(res_infos, a_infos, key_infos);
+        // The add/sub variants run the big-accumulator automorphism and the final normalisation while the
+        // key-switch temporaries (accumulator, re-normalised operand) are still taken out of the scratch.
         let lvl_1: usize = self
             .vec_znx_automorphism_assign_tmp_bytes()
-            .max(self.vec_znx_big_automorphism_assign_tmp_bytes());
+            .max(self.vec_znx_big_automorphism_assign_tmp_bytes())
+            .max(self.vec_znx_big_normalize_tmp_bytes());
 
-        lvl_0.max(lvl_1)
+        lvl_0 + lvl_1
     }
 
     fn glwe_automorphism_default<R, A, K>(&self, res: &mut R, a: &A, key: &K, scratch: &mut Scratch<BE>)
@@ -381,6 +385,7 @@ where
         + VecZnxBigSubSmallNegateAssign<BE>
         + VecZnxBigAddSmallAssign<BE>
         + VecZnxBigNormalize<BE>
+        + VecZnxBigNormalizeTmpBytes
         + GLWENormalize<BE>,
     Scratch<BE>: ScratchTakeCore<BE>,
 {
